@@ -244,3 +244,19 @@ Inductive views : bmp_msg -> list bmp_view -> Prop :=
 Definition common_length_exact (msg : bytes) : Prop :=
   exists ver len ty following,
     msg = [ver] ++ be 4 len ++ [ty] ++ following /\ len < 2 ^ 32 /\ len = N.of_nat (length msg).
+
+(* Open finding C19-3 (known_findings.json): the class of monitored announcements
+   whose embedded UPDATE loses its next hop, an IPv4-unicast route with an IPv6
+   next hop (RFC 8950).  The BGP encoder is outside this development (C04), so no
+   theorem here speaks about the content of a PDU and none is restricted by this
+   predicate; it mirrors the decidable class [known3] used by the oracle of
+   gen/c19.py, which attributes a failure to the finding only inside this class. *)
+Definition Known_C19_3 (family : N) (nexthop : option bytes) : Prop :=
+  family = 65537 /\ exists nh, nexthop = Some nh /\ (length nh = 16%nat \/ length nh = 32%nat).
+
+Definition known_c19_3b (family : N) (nexthop : option bytes) : bool :=
+  (family =? 65537) &&
+  match nexthop with
+  | Some nh => Nat.eqb (length nh) 16 || Nat.eqb (length nh) 32
+  | None => false
+  end.
